@@ -166,7 +166,7 @@ func normInt(k types.BasicKind, v uint64) uint64 {
 	return v
 }
 
-func mkInt(k types.BasicKind, v int64) Int  { return Int{K: k, C: normInt(k, uint64(v))} }
+func mkInt(k types.BasicKind, v int64) Int   { return Int{K: k, C: normInt(k, uint64(v))} }
 func mkUint(k types.BasicKind, v uint64) Int { return Int{K: k, C: normInt(k, v)} }
 func goInt(v int) Int                        { return Int{K: types.Int, C: uint64(int64(v))} }
 func symInt(k types.BasicKind, t *Term) Int {
